@@ -84,7 +84,15 @@ func (c *Configuration) validate() (bool, error) {
 		}
 	}
 
+	seen := make(map[string]bool)
 	for index, serviceName := range c.ServiceNameList {
+		// every service is one route group: a second registration of the same group panics at start-up
+		if seen[serviceName] {
+			err := errors.New("Invalid serviceNameList[" + strconv.Itoa(index) + "]: " +
+				serviceName + " is listed more than once.")
+			return false, err
+		}
+		seen[serviceName] = true
 		switch {
 		case serviceName == "nchf-convergedcharging":
 		case serviceName == "nchf-offlineonlycharging":
